@@ -162,6 +162,161 @@ func checkCase(c *mc.Ctx, w *mc.W, s, u, want []byte, zero bool) {
 	}
 }
 
+// sparseSpace: (scalar, u) pairs whose correct X25519 output is non-zero only
+// in ONE byte (every byte position 0..31) or only in ONE 64-bit word (each of
+// the four words, all eight bytes of the word non-zero).  The target
+// T = k * 2^(8*pos) is accepted when the reference finds it in the prime-order
+// subgroup of the curve (order L) or of the twist (order L'); the input is
+// U = [s^-1 mod order] T computed with the reference ladder, so that
+// X25519(s, U) = T.  The oracle is, as everywhere, the reference ladder on
+// (s, U); that it reproduces T is a reference self-check.
+func sparseSpace(c *mc.Ctx) {
+	type target struct {
+		t     *big.Int
+		q     *big.Int
+		curve bool
+		pos   int // byte position, or -1-word for whole-word targets
+		k     *big.Int
+	}
+	perPos := c.Pick(1, 2) // hits per (byte position, curve/twist); quick: first hit of either kind
+	var mu sync.Mutex
+	found := make([][]target, 36)
+	var wg sync.WaitGroup
+	for slot := 0; slot < 36; slot++ {
+		wg.Add(1)
+		go func(slot int) {
+			defer wg.Done()
+			var res []target
+			nc, nt := 0, 0
+			try := func(k *big.Int, shift uint, pos int) bool {
+				T := new(big.Int).Lsh(k, shift)
+				if T.Cmp(refx.P) >= 0 {
+					return false
+				}
+				ok, q := refx.PrimeOrderSubgroup(T)
+				if !ok {
+					return false
+				}
+				onc := q.Cmp(refx.L) == 0
+				if c.Thorough {
+					if (onc && nc >= perPos) || (!onc && nt >= perPos) {
+						return false
+					}
+				}
+				if onc {
+					nc++
+				} else {
+					nt++
+				}
+				res = append(res, target{t: T, q: q, curve: onc, pos: pos, k: new(big.Int).Set(k)})
+				if c.Thorough {
+					return nc >= perPos && nt >= perPos
+				}
+				return true
+			}
+			if slot < 32 { // single byte at position slot
+				max := int64(255)
+				if slot == 31 {
+					max = 127
+				}
+				for k := int64(1); k <= max; k++ {
+					if try(big.NewInt(k), uint(8*slot), slot) {
+						break
+					}
+				}
+			} else { // whole word: every byte of the word non-zero, scanning down from ff..ff (7f.. for the top word)
+				word := slot - 32
+				k := new(big.Int).Sub(new(big.Int).Lsh(big.NewInt(1), 64), big.NewInt(1))
+				if word == 3 {
+					k.Rsh(k, 1)
+				}
+				for n := 0; n < 400; n++ {
+					hasZeroByte := false
+					for _, b := range k.Bytes() {
+						if b == 0 {
+							hasZeroByte = true
+						}
+					}
+					if !hasZeroByte && try(k, uint(64*word), -1-word) {
+						break
+					}
+					k = new(big.Int).Sub(k, big.NewInt(1))
+				}
+			}
+			mu.Lock()
+			found[slot] = res
+			mu.Unlock()
+		}(slot)
+	}
+	wg.Wait()
+	var targets []target
+	for _, r := range found {
+		targets = append(targets, r...)
+	}
+	scalars := [][]byte{mc.Bytes(c.Seed, "c07-scalar", 0, 32), rep(0xff)}
+	if c.Thorough {
+		scalars = append(scalars, rep(0), mc.Bytes(c.Seed, "c07-scalar", 1, 32))
+	}
+	c.Rep.Extra["sparse_targets"] = len(targets)
+	// inputs (reference side): U = [s^-1] T, with bit 255 clear and set
+	type scase struct {
+		tg   target
+		s, u []byte
+	}
+	cases := make([]scase, len(targets)*len(scalars)*2)
+	for ti := range targets {
+		for si := range scalars {
+			wg.Add(1)
+			go func(ti, si int) {
+				defer wg.Done()
+				u := refx.Preimage(scalars[si], targets[ti].t, targets[ti].q)
+				for v := 0; v < 2; v++ {
+					var uu []byte
+					if u != nil {
+						uu = append([]byte{}, u...)
+						uu[31] |= byte(v) << 7
+					}
+					cases[(ti*len(scalars)+si)*2+v] = scase{targets[ti], scalars[si], uu}
+				}
+			}(ti, si)
+		}
+	}
+	wg.Wait()
+	alphed.Par(c, "sparse-output", len(cases), func(w *mc.W, i int) {
+		cs := cases[i]
+		if cs.u == nil {
+			c.Broken("sparse-output: clamped scalar not invertible modulo the subgroup order")
+			return
+		}
+		want := refx.X25519(cs.s, cs.u)
+		if !bytes.Equal(want, refx.EncodeUCoordinate(cs.tg.t)) {
+			c.Broken(fmt.Sprintf("reference inconsistency: X25519(%x, preimage %x) = %x is not the target %x", cs.s, cs.u, want, refx.EncodeUCoordinate(cs.tg.t)))
+			return
+		}
+		word := cs.tg.pos / 8
+		kind := "byte"
+		if cs.tg.pos < 0 {
+			word, kind = -1-cs.tg.pos, "word"
+		}
+		grp := "twist"
+		if cs.tg.curve {
+			grp = "curve"
+		}
+		w.Eval(fmt.Sprintf("sparse-output/%s-in-word%d", kind, word), true)
+		w.Eval("sparse-output/"+grp, true)
+		checkCase(c, w, cs.s, cs.u, want, false)
+		if i%23 == 0 {
+			w.Sample(map[string]string{"op": "X25519 with a one-" + kind + " output", "scalar": hx(cs.s), "u": hx(cs.u), "output": hx(want)})
+		}
+	})
+	for word := 0; word < 4; word++ {
+		c.Require(fmt.Sprintf("sparse-output/byte-in-word%d", word), int64(8*len(scalars)*2))
+		c.Require(fmt.Sprintf("sparse-output/word-in-word%d", word), int64(len(scalars)*2))
+	}
+	c.Require("sparse-output/curve", int64(4*len(scalars)*2))
+	c.Require("sparse-output/twist", int64(4*len(scalars)*2))
+}
+
 func run(c *mc.Ctx) {
 	U := alphed.UCoordsSized(c.Seed, c.Pick(10, 40), int64(c.Pick(8, 40)))
 	S := scalarStrings(c.Seed, true, c.Pick(3, 40), c.Thorough)
@@ -253,6 +408,35 @@ func run(c *mc.Ctx) {
 			w.Fail("MontgomeryPoint.Mul/alias", fmt.Sprintf("p.Mul(p, k) u=%x k=%x gave %x want %x", u, ref.LE32(k), mp[:], want), nil)
 		}
 	})
+
+	// ---------------------------------------------------------------- sparse outputs: results that are non-zero in one byte / one word only
+	sparseSpace(c)
+
+	// ---------------------------------------------------------------- carry seams of the multiplication by 121666 in the first ladder step
+	seams := alphed.Mul121666Seams(c.Thorough)
+	seamS := [][]byte{mc.Bytes(c.Seed, "c07-scalar", 0, 32)}
+	if c.Thorough {
+		seamS = append(seamS, rep(0xff), rep(0))
+	}
+	c.Rep.Extra["alphabet_seam_u_strings"] = len(seams)
+	alphed.Par(c, "mul121666-seam", len(seams)*len(seamS), func(w *mc.W, i int) {
+		sm, s := seams[i/len(seamS)], seamS[i%len(seamS)]
+		want := refx.X25519(s, sm.U)
+		zero := refx.IsZero32(want)
+		cls := "mul121666-seam/cold"
+		if sm.Hot {
+			cls = "mul121666-seam/hot"
+		}
+		w.Eval(fmt.Sprintf("%s:limb%d", cls, sm.Limb), sm.Hot)
+		checkCase(c, w, s, sm.U, want, zero)
+		if i%97 == 0 {
+			w.Sample(map[string]string{"op": "X25519 on a Mul121666 carry seam", "u": hx(sm.U), "limb": fmt.Sprint(sm.Limb), "j": fmt.Sprint(sm.J), "lower": sm.Lower, "fill": sm.Fill})
+		}
+	})
+	for limb := 1; limb <= 4; limb++ {
+		c.Require(fmt.Sprintf("mul121666-seam/hot:limb%d", limb), int64(14*4*len(seamS)))
+		c.Require(fmt.Sprintf("mul121666-seam/cold:limb%d", limb), int64(14*len(seamS)))
+	}
 
 	// ---------------------------------------------------------------- fixed base
 	SB := scalarStrings(c.Seed, !c.Thorough, 0, true)
